@@ -223,7 +223,8 @@ def explore(ctx, bench, scens, reporters, oracle, label, check_events=True, env=
     return disagreements, oracle_fail
 
 
-def report(ctx, bench, disagreements, oracle_fail, oracle, label):
+def report(ctx, bench, disagreements, oracle_fail, oracle, label, facts_fn=None):
+    facts_fn = facts_fn or facts_of
     """Turn oracle failures into violations (shrunk replay) and disagreements into a broken
     correspondence obligation followed by a search around the disagreeing case."""
     seen = set()
@@ -242,7 +243,7 @@ def report(ctx, bench, disagreements, oracle_fail, oracle, label):
         mm = run_model_scenarios([small.text()])[0]
         oo = bench.run_many([(small.text(), r)])[0]
         e2 = oracle(small, mm, oo, r) or e
-        facts = facts_of(small, mm)
+        facts = facts_fn(small, mm)
         facts["reporter"] = r
         key = (r, small.text())
         if key in seen:
@@ -265,7 +266,7 @@ def report(ctx, bench, disagreements, oracle_fail, oracle, label):
                     tried += 1
                     e = oracle(c, m1, o1, rep) if oracle else None
                     if e:
-                        ctx.violation(f"[{label}] {e}", f"# reporter: {rep}\n# what: {e}\n" + c.text(), found_input=True, facts=facts_of(c, m1))
+                        ctx.violation(f"[{label}] {e}", f"# reporter: {rep}\n# what: {e}\n" + c.text(), found_input=True, facts=facts_fn(c, m1))
                         return
         s, r, ds, m, o = disagreements[0]
         body = f"correspondence {label} broken: {ds}\n# reporter {r}\n" + s.text() + "\n# implementation output:\n" + \
